@@ -277,8 +277,8 @@ pub fn eval_ew<F: FnMut(&GraphColoredVertices, &str)>(
         graph,
         &eval_au(
             graph,
-            &eval_neg(graph, phi1),
             &eval_neg(graph, phi2),
+            &eval_neg(graph, phi1).intersect(&eval_neg(graph, phi2)),
             self_loop_states,
             progress_callback,
         ),
@@ -296,8 +296,8 @@ pub fn eval_aw<F: FnMut(&GraphColoredVertices, &str)>(
         graph,
         &eval_eu_saturated(
             graph,
-            &eval_neg(graph, phi1),
             &eval_neg(graph, phi2),
+            &eval_neg(graph, phi1).intersect(&eval_neg(graph, phi2)),
             progress_callback,
         ),
     )
